@@ -1662,6 +1662,10 @@ def driver_source(specs, status, src_root):
             if status.get(n, {}).get("translated"):
                 imports.append(f"import FinamModel.Translated.{n}")
                 cases.append(f'  | "{n}" => toJ (Tr.{n} (heapOfJson (argAt args 0)) (fromJ (argAt args 1)))')
+        for n in ("map_inputs", "map_outputs"):
+            if status.get(n, {}).get("translated"):
+                imports.append(f"import FinamModel.Translated.{n}")
+                cases.append(f'  | "{n}" => toJ (Tr.{n} (heapOfJson (argAt args 0)) (fromJ (argAt args 1)))')
         if status.get("metadata_links", {}).get("translated"):
             imports.append("import FinamModel.Translated.metadata_links")
             cases.append('  | "metadata_links" => toJ (Tr.metadata_links (heapOfJson (argAt args 0)) (fromJ (argAt args 1)) '
